@@ -223,6 +223,13 @@ public:
     queue.push_back(St());
     while (!queue.empty())
     {
+      // The canonical states over 0..u number a few hundred (Fibonacci-like); an implementation whose
+      // reachable state set explodes is not behaving as a point set: report it instead of running on.
+      if (seen.size() > 3000)
+      {
+        tracer().emit(Obj().kv("e", "StateExplosion").kv("k", k).kv("states", seen.size()));
+        return;
+      }
       St st = queue.front();
       queue.pop_front();
       reset();
@@ -281,6 +288,12 @@ public:
             bpp::Range<T> ae(r);
             ae += ae.end();
             e.kv("ae", pr(ae));
+            // shift below the origin (wraps for unsigned coordinates): the length must still be preserved
+            bpp::Range<T> dn = r - cd.enc(b * step + 1 > a * step + 1 ? (a < b ? a : b) * step + 1 : 1);
+            e.kv("dnlen", cd.dec(dn.length()));
+            bpp::Range<T> dn2(r);
+            dn2 -= cd.enc((a < b ? a : b) * step + 1);
+            e.kv("dn2len", cd.dec(dn2.length()));
             e.kv("ov", r.overlap(q)).kv("ct", r.contains(q)).kv("cg", r.isContiguous(q));
             bpp::Range<T> ex(r);
             ex.expandWith(q);
@@ -301,7 +314,7 @@ template<class T> long runAll(const std::string& mode, long scale, const std::st
   if (mode == "random") R.random(rng, n, 24 * scale);
   else if (mode == "bfs")
   {
-    R.bfs("mr", u, 1000);
+    R.bfs("mr", u, static_cast<size_t>(u) + 2); // states with more ranges than cells are reported, not expanded
     R.bfs("rs", u > 3 ? 3 : u, 2);
   }
   else if (mode == "prims") R.prims(u);
